@@ -611,12 +611,30 @@ func run(in input, em *lib.Emitter, id string) {
 		Coq:        coq,
 		Key:        hex.EncodeToString(kh[:12]),
 		Nontrivial: hasReal && (len(kinds) >= 2 || boundary || real.maxSig == 72),
-		Sig: map[string]interface{}{"caller": in.Caller, "kinds": strings.Join(kindList, "+"),
-			"built": hasReal},
+		Sig: sigOf(in, kindList, hasReal),
 		In: in,
 		Out: map[string]interface{}{"estimate": estObs, "built": hasReal, "note": real.note,
 			"base": real.base, "total": real.total, "vsize": real.vsize, "sigLengths": real.sigLens},
 	})
+}
+
+// sigOf: structural signature for known-findings matching.  Deposit sweeps estimated through
+// tbtcpg.EstimateDepositsSweepFee say whether legacy P2SH deposits are among the swept ones.
+func sigOf(in input, kindList []string, built bool) map[string]interface{} {
+	sig := map[string]interface{}{"caller": in.Caller, "kinds": strings.Join(kindList, "+"), "built": built}
+	if in.Caller == "sweep" {
+		sig["caller"] = "EstimateDepositsSweepFee"
+		p2sh := false
+		for _, it := range in.Items {
+			for _, g := range it.Ins {
+				if g.Kind == "p2sh" {
+					p2sh = true
+				}
+			}
+		}
+		sig["p2sh_deposits"] = p2sh
+	}
+	return sig
 }
 
 // ------------------------------------------------------------------ generators
@@ -835,6 +853,12 @@ func main() {
 			n := r.Range(1, 20)
 			dep := shIn(n, 126, true, n, []int{92, 126}[r.Intn(2)], "mix")
 			main := pkhIn(1, true, r.Intn(2), "mix") // a wallet without main UTXO has no such input
+			if r.Chance(1, 3) && n >= 2 {
+				// some of the swept deposits are legacy P2SH ones (known finding C30-sweep-p2sh-deposits)
+				k := r.Range(1, n-1)
+				dep.Ins[0].Mult = n - k
+				dep.Ins = append(dep.Ins, inGroup{Kind: "p2sh", RLen: dep.Ins[0].RLen, First: 0x61, Sig: "mix", Mult: k, Deposit: true})
+			}
 			emit(input{Seed: r.U64(), Caller: "sweep", Items: []itemSpec{main, dep, outs("pkhout", 1, true, 1)}}, fmt.Sprintf("caller-sweep-%d", i))
 		case 1:
 			n := r.Range(1, 12)
